@@ -1,6 +1,7 @@
 """C09 Declarations are understood exactly as a C++ compiler understands them (DESIGN.md 6/C09) -- internal coherence
 of parser and printers only; agreement with a C++ compiler is not covered."""
 import copy
+import json
 from contracts import declast_parser as P
 from contracts import todict_print as T
 
@@ -19,21 +20,52 @@ def run(ctx):
     except ImportError:
         pass
     ctx.pyvc(units, dict((u.name, MON) for u in units))
+    # frame condition of the renderers and queries: producing a rendering of a declaration does not change the
+    # declaration (effect inference over the real source, interprocedural: parameter 0 is never mutated, neither
+    # directly nor by something drawn from it nor through a callee)
+    from checklib import REPO
+    from effects.roots import Analysis
+    an = Analysis(REPO).run()
+    nfound = 0
+    for key, f in sorted(an.funcs.items()):
+        mod, _, qual = key.partition(".")
+        cls, _, meth = qual.partition(".")
+        node_param = None
+        if mod == "declast" and cls in ("Declaration", "Declarator", "Ptr") and (
+                meth.startswith(("gen_", "is_", "get_", "as_")) or meth in ("bind_c", "__str__", "_as_arg")):
+            node_param = 0
+        elif mod == "todict" and cls in ("PrintNode", "PrintNodeIdentifier") and meth.startswith("visit"):
+            node_param = 1
+        if node_param is None:
+            continue
+        nfound += 1
+        ctx.item("C09/E1/pure:%s" % key, node_param not in f.mut_params,
+                 "%s changes the node it renders (parameter %d, or something drawn from it, is mutated): a second rendering "
+                 "of the same declaration differs from the first" % (key, node_param),
+                 sample={"function": key, "mutated_parameters": sorted(f.mut_params)},
+                 confirm=lambda: ctx.monitor("m_roundtrip", "search", 3000, ctx.seed,
+                                             json.dumps({"must_contain": ["changed the declaration"]})))
+    ctx.item("C09/E1/renderers-found", nfound >= 25, "only %d renderer/query methods found (vacuity guard)" % nfound)
     ctx.trusted += [
         "token stream model: RecursiveDescent.next advances by one token (trusted); sub-parsers expression/declaration "
         "consume >= 1 token, do not end on a comma, may raise RuntimeError (contract, not proved)",
         "printer oracle W1-W3/WX (see contracts/todict_print.py)",
     ]
     ctx.not_covered += [
-        "agreement with a C++ compiler (needs g++ as oracle)",
+        "agreement with a C++ compiler: only through the bounded monitor (g++ static_assert(std::is_same<...>) between ~290 "
+        "declarations and shroud's rendering of them), no contract",
         "ExprParser.expression precedence shape, Parser.declaration_specifier/declarator/pointer, gen_decl renderings: "
         "bounded round-trip monitor m_roundtrip only",
     ]
     n = 1200 if ctx.tier == "quick" else 20000
     r = ctx.monitor("m_roundtrip", "search", n, ctx.seed)
     ctx.bounded.append({"monitor": "m_roundtrip", "inputs_tried": r["tried"], "violation": r["violation"],
-                        "kind": "bounded: 11 specifiers x 8 pointer chains x 8 attributes, function/array/function-pointer/vector forms, "
-                                "23 expressions then random token strings; parse(gen_decl(parse(d))) == parse(d), C rendering, printer stability",
+                        "kind": "bounded: g++ -fsyntax-only static_assert(is_same<decltype(original), decltype(rendering)>) on ~290 "
+                                "declarations (specifier x pointer chain, functions, arrays, function pointers, unnamed "
+                                "parameters, vectors); every parenthesisation of <= 4 operands over + - * /: "
+                                "parse(print(parse(e))) has the structure of parse(e); 11 specifiers x 8 pointer chains x 8 "
+                                "attributes: parse(gen_decl(parse(d))) == parse(d), renderers leave the node unchanged, C "
+                                "rendering; then random token strings",
                         "bound": "%d candidates" % n})
     if r["violation"]:
         ctx.violation("bounded/m_roundtrip", {"inputs": r["inputs"], "observed": r["violation"]}, True)
